@@ -108,16 +108,18 @@ def run(cmd, timeout=600, cwd=None, env=None, input=None):
         return 124, out, err + "\nTIMEOUT", time.time() - t0
 
 
-def ensure_static_built(timeout=1800):
-    """Build Base/Model/Proofs/Props (does not depend on /repo). Serialised by a lock so
-    that checks running in parallel do not race on .vo files."""
+def ensure_static_built(targets=None, timeout=1800):
+    """Build the static part of the development that this check needs (`targets`: .vo paths
+    relative to coq/, default everything). Does not depend on /repo. Serialised by a lock so that
+    checks running in parallel do not race on .vo files. Full .vo build, never -vos."""
     lock = COQ / ".build.lock"
     with open(lock, "w") as lf:
         fcntl.flock(lf, fcntl.LOCK_EX)
         rc, out, err, dt = run(["sh", str(VERIF / "tools" / "gen_coqproject.sh")], timeout=120)
         if rc != 0:
             return False, out + err
-        rc, out, err, dt = run(["make", "-j", str(NCPU)], cwd=COQ, timeout=timeout)
+        cmd = ["make", "-j", str(NCPU)] + list(targets or [])
+        rc, out, err, dt = run(cmd, cwd=COQ, timeout=timeout)
         return rc == 0, (out + err)[-4000:]
 
 
@@ -143,15 +145,43 @@ def coq_eval(requires: list[str], body: str, tag: str, timeout=600):
     return ok, out
 
 
-def scan_forbidden(paths=None):
-    """Return list of (file, line, text) for forbidden constructs in the development."""
+def dep_closure(targets):
+    """Transitive .v dependencies (inside coq/) of the given .vo targets, from coq_makefile's
+    .Makefile.d; None if it cannot be determined."""
+    d = COQ / ".Makefile.d"
+    if not d.exists():
+        return None
+    deps = {}
+    for line in d.read_text().splitlines():
+        if ":" not in line:
+            continue
+        lhs, rhs = line.split(":", 1)
+        for t in lhs.split():
+            if t.endswith(".vo"):
+                deps[t] = [x for x in rhs.split() if x.endswith(".vo")]
+    seen, todo = set(), list(targets)
+    while todo:
+        t = todo.pop()
+        if t in seen:
+            continue
+        seen.add(t)
+        if t not in deps:
+            return None
+        todo += deps[t]
+    return [COQ / (t[:-1]) for t in sorted(seen)]
+
+
+def scan_forbidden(files=None):
+    """Return list of (file, line, text) for forbidden constructs in the given .v files
+    (default: the whole development)."""
     hits = []
-    files = []
-    for d in ("Base", "Model", "Proofs", "Props", "Gen", "Extract"):
-        files += sorted((COQ / d).glob("**/*.v")) if (COQ / d).exists() else []
+    if files is None:
+        files = []
+        for d in ("Base", "Model", "Proofs", "Props", "Gen", "Extract"):
+            files += sorted((COQ / d).glob("**/*.v")) if (COQ / d).exists() else []
     for f in files:
         depth = 0
-        txt = strip_coq_comments(f.read_text())
+        txt = strip_coq_comments(Path(f).read_text())
         for i, line in enumerate(txt.splitlines(), 1):
             if FORBIDDEN.search(line):
                 hits.append((str(f), i, line.strip()))
@@ -309,6 +339,7 @@ class PropertyCheck:
     id = "C00"
     module = None            # e.g. "Props.C14"
     theorems: list[str] = []
+    extra_modules: list[str] = []    # further static modules the correspondence needs, e.g. "Base.Lit"
     allowed_axioms: list[str] = []   # names (suffix match) accepted in Print Assumptions
     section_premises: list[str] = []  # named premises of the theorems (trusted-base text)
     trusted_base: list[str] = []
@@ -359,10 +390,14 @@ class PropertyCheck:
     # ---- pipeline --------------------------------------------------------
     def run(self) -> int:
         try:
-            ok, out = ensure_static_built()
-            self.ob("build", "static development (make, full .vo)", ok, out)
-            hits = scan_forbidden()
-            self.ob("scan", "no Admitted/admit/Axiom/Parameter/guard switches in coq/", not hits,
+            targets = [self.module.replace(".", "/") + ".vo"] if self.module else []
+            targets += [m.replace(".", "/") + ".vo" for m in self.extra_modules]
+            ok, out = ensure_static_built(targets or None)
+            self.ob("build", "static development needed by this check (make, full .vo): " + " ".join(targets), ok, out)
+            closure = dep_closure(targets) if targets else None
+            hits = scan_forbidden(closure)
+            self.ob("scan", "no Admitted/admit/Axiom/Parameter/top-level Variable/guard switches in the "
+                    + (f"{len(closure)} files this check depends on" if closure else "whole development"), not hits,
                     "\n".join(f"{f}:{l}: {t}" for f, l, t in hits))
             ties = []
             try:
@@ -373,6 +408,9 @@ class PropertyCheck:
             except Exception:
                 self.ob("translator", f"{self.id} translators recognise the current source", False,
                         traceback.format_exc())
+            thits = scan_forbidden([Path(t) for t in ties])
+            if thits:
+                self.ob("scan", "generated tie files free of forbidden constructs", False, str(thits))
             for t in ties:
                 tok, tout = coqc(Path(t))
                 self.ob("tie-proof", f"{Path(t).name} (theorems re-checked against regenerated model)", tok, tout)
